@@ -500,7 +500,9 @@ def family_S(seed: int, count: int, *, big=False) -> List[Spec]:
             regs = sorted(par.kids, key=lambda n: ".".join(n.path))
             ra, rb = regs[0], regs[1]
             la, lb = ra.kids[0], rb.kids[0]
-            if "always" not in find(cfg, la.path) and "always" not in find(cfg, lb.path):
+            # (only when the machine has no other eventless transition: two of them chasing each other would spin
+            #  for maxIterations microsteps on both sides)
+            if not any("always" in find(cfg, n.path) for n in nodes):
                 tcount += 1
                 find(cfg, la.path)["always"] = {"target": "#m.z", "guard": "g1", "actions": [f"tr:always:{tcount}"]}
                 tcount += 1
